@@ -108,7 +108,7 @@ def gen_shapes(rng, nodes, lits, n_shapes=6, max_depth_refs=True, recursive=Fals
             else:
                 k = rng.choice(logical)
                 if k == "not":
-                    c = ("not", rng.sample(any_refs, 1))
+                    c = ("not", rng.sample(any_refs, min(len(any_refs), rng.choice([1, 1, 2, 3]))))
                 elif k in ("and", "or", "xone"):
                     c = (k, [rng.sample(any_refs, min(len(any_refs), rng.randint(1, 3)))])
                     if k == "xone" and rng.random() < 0.2:
@@ -278,6 +278,31 @@ def tmpl_custom(rng, nodes, lits):
     return out
 
 
+def tmpl_custom_alone(rng, nodes, lits):
+    """a SPARQL-based constraint component that is the only (or the first) thing to fail in its shape - on a targeted node
+    shape, or on a property shape consulted through sh:property by a parent of another severity"""
+    from . import sparqlgen as SG
+    u = _uid(rng)
+    iri_nodes = [n for n in nodes if isinstance(n, URIRef)]
+    parent = new_shape(EX["CA%s" % u], None)
+    parent["sev"] = rng.choice([SH.Info, SH.Warning, None, None])
+    parent["targets"]["nodes"] = rng.sample(iri_nodes, min(rng.randint(1, 3), len(iri_nodes)))
+    cc = SG.gen_custom(rng, 0, iri_nodes + lits)
+    nested = rng.random() < 0.5
+    if cc["kind"] == "select":
+        cc["query"], cc["needs_prop"] = rng.choice([SG.CSELECTS[1], SG.CSELECTS[3]] + ([SG.CSELECTS[4]] if nested else []))
+    cc["query"] = cc["query"].replace("$arg", "$" + cc["var"])
+    if nested:
+        ps = new_shape(BNode("cap%s" % u) if rng.random() < 0.6 else EX["CAP%s" % u], ("pred", rng.choice(PREDS[:2])))
+        ps["sev"] = rng.choice([None, SH.Warning, SH.Info, SH.Violation])
+        cc["on_prop"] = True
+        ps["comps"].append(("custom", cc))
+        parent["comps"].append(("property", [ps["id"]]))
+        return [parent, ps]
+    parent["comps"].append(("custom", cc))
+    return [parent]
+
+
 def tmpl_shared(rng, nodes, lits):
     """one shape PS reached twice for the same value node: once inside a logical component that swallows its failure
     (sh:or / sh:xone / sh:not), once through sh:property or sh:node whose failure counts - by two sibling property
@@ -320,7 +345,8 @@ def tmpl_multi_logical(rng, nodes, lits):
     other["comps"].append(("nodekind", rng.choice(["NKLiteral", "NKBlankNode", "NKIRI"])))
     ps = new_shape(BNode("mp%s" % u), ("pred", rng.choice(PREDS[:2])))
     kind = rng.choice(["not", "not", "or", "and", "xone"])
-    ps["comps"].append(("not", [inner["id"]]) if kind == "not" else (kind, [[inner["id"], other["id"]]]))
+    # sh:not with several values: each negated shape is a constraint of its own
+    ps["comps"].append(("not", [inner["id"]] + ([other["id"]] if rng.random() < 0.5 else [])) if kind == "not" else (kind, [[inner["id"], other["id"]]]))
     ps["sev"] = rng.choice([None, None, SH.Warning, SH.Info])
     parent = new_shape(EX["MLP%s" % u], None)
     parent["targets"]["nodes"] = rng.sample(iri_nodes, min(2, len(iri_nodes)))
